@@ -625,6 +625,10 @@ def m_isinstance(ex, st, fr, args, kwargs):
 
 def m_issubclass(ex, st, fr, args, kwargs):
     c, base = args
+    if isinstance(c, VClass) and hasattr(c, "sym"):
+        roles = getattr(c, "roles", None) or {c.symbase}
+        names = _class_names(base)
+        return [(st, "ok", VT(tm.B(any(ex.is_subkind(r, n) for r in roles for n in names))))]
     if isinstance(c, VClass):
         return [(st, "ok", VT(tm.B(any(ex.is_subkind(c.name, n) for n in _class_names(base)))))]
     raise Unsupported("issubclass of %r" % (c,))
@@ -782,6 +786,13 @@ def sm_upper(ex, st, fr, self, args, kwargs):
 
 def sm_replace(ex, st, fr, self, args, kwargs):
     a, b = args
+    if tm.is_const(self.t) and tm.is_const(a.t) and tm.cval(a.t) != "":
+        # constant haystack and needle: str.replace is a split/join (exact), the replacement may be symbolic
+        parts = tm.cval(self.t).split(tm.cval(a.t))
+        pieces = [tm.S(parts[0])]
+        for p_ in parts[1:]:
+            pieces += [b.t, tm.S(p_)]
+        return [(st, "ok", VT(tm.concat(*pieces)))]
     return [(st, "ok", VT(T("str.replace_all", (self.t, a.t, b.t), STR)))]
 
 
@@ -939,6 +950,11 @@ def km_seq_eq(ex, st, fr, self, args, kwargs):
 def km_seq_rc(ex, st, fr, self, args, kwargs):
     ex.used_models.add("D-SEQ")
     st = st.fork()
+    data = ex.models.seq_text(st, self)
+    if tm.is_const(data):
+        # a constant: the dependency itself is evaluated (Bio.Seq.reverse_complement), e.g. on an elucidated cut pattern
+        from Bio.Seq import Seq as _Seq
+        return [(st, "ok", ex.models.mk_seq(st, tm.S(str(_Seq(tm.cval(data)).reverse_complement()))))]
     return [(st, "ok", ex.models.mk_seq(st, tm.app("rc", STR, ex.models.seq_text(st, self))))]
 
 
